@@ -148,6 +148,64 @@ def _genotypes(rep, kind, shared):
     return out
 
 
+def _history_scenario(seed):
+    """[(representation, description)] for every representation whose mapping of one genotype differs between a grammar
+    whose classes have a history (used under an earlier refinement, then re-declared and re-extracted) and the same
+    grammar built from fresh class objects."""
+    from geneticengine.grammar.grammar import extract_grammar as _eg
+    from geneticengine.random.sources import NativeRandomSource as _NRS
+    from geneticengine.representations.tree.initializations import MaxDepthDecider as _MD
+    from geneticengine.representations.tree.treebased import TreeBasedRepresentation as _TR
+    from geneticengine.representations.grammatical_evolution.ge import GrammaticalEvolutionRepresentation as _GE, Genotype as _GEG
+    from geneticengine.representations.grammatical_evolution.structured_ge import StructuredGrammaticalEvolutionRepresentation as _SGE
+
+    import dataclasses as _dcs
+
+    def classes(lo, hi):
+        # real type objects, no postponed annotations (names local to this function could not be resolved)
+        ExprH = type("ExprH", (ABC,), {"__module__": __name__})
+        LitH = _dcs.make_dataclass("LitH", [("v", Annotated[int, IntRange(lo, hi)])], bases=(ExprH,))
+        AddH = _dcs.make_dataclass("AddH", [("l", ExprH), ("r", ExprH)], bases=(ExprH,))
+        for c_ in (LitH, AddH):
+            c_.__module__ = __name__
+        return ExprH, LitH, AddH
+
+    def plain(x):
+        if hasattr(x, "__dataclass_fields__"):
+            return (type(x).__name__,) + tuple(plain(getattr(x, f)) for f in x.__dataclass_fields__)
+        if isinstance(x, (list, tuple)):
+            return tuple(plain(y) for y in x)
+        return x
+
+    out = []
+    # with history: used under IntRange(0, 9), then re-declared to IntRange(100, 109)
+    E1, L1, A1 = classes(0, 9)
+    g_old = _eg([L1, A1], E1)
+    r = _NRS(seed)
+    tree = _TR(g_old, _MD(r, g_old, 3))
+    for _ in range(5):
+        tree.create_genotype(r)
+    for nm, mk in (("GE", lambda g, d: _GE(g, d, gene_length=40)), ("SGE", lambda g, d: _SGE(g, d, gene_length=20))):
+        rep_old = mk(g_old, _MD(r, g_old, 3))
+        rep_old.genotype_to_phenotype(rep_old.create_genotype(r))
+    L1.__init__.__annotations__["v"] = Annotated[int, IntRange(100, 109)]
+    g_hist = _eg([L1, A1], E1)
+    # without history: fresh class objects declared with IntRange(100, 109) from the start
+    E2, L2, A2 = classes(100, 109)
+    g_fresh = _eg([L2, A2], E2)
+    for nm, mk in (("GE", lambda g, d: _GE(g, d, gene_length=40)), ("SGE", lambda g, d: _SGE(g, d, gene_length=20))):
+        ra, rb = _NRS(seed + 5), _NRS(seed + 5)
+        rep_h, rep_f = mk(g_hist, _MD(ra, g_hist, 3)), mk(g_fresh, _MD(rb, g_fresh, 3))
+        for i in range(6):
+            gt_h, gt_f = rep_h.create_genotype(ra), rep_f.create_genotype(rb)
+            ph, pf = plain(rep_h.genotype_to_phenotype(gt_h)), plain(rep_f.genotype_to_phenotype(gt_f))
+            if ph != pf:
+                out.append((nm, f"{nm}: the same genes (NativeRandomSource({seed + 5}), genotype #{i + 1}) map to {short(str(ph), 120)} under a grammar whose classes were used before "
+                                f"with IntRange(0,9) and then re-declared IntRange(100,109), but to {short(str(pf), 120)} under the same grammar built from untouched classes"))
+                break
+    return out
+
+
 def run(tier: str, seed: int) -> dict:
     quick = tier != "thorough"
     clock = Clock(26 if quick else 400)
@@ -272,6 +330,15 @@ def run(tier: str, seed: int) -> dict:
         rounds_done = s + 1 if not clock.over() else rounds_done
         if clock.over():
             break
+
+    # history independence: the same genes mapped under a grammar whose classes were used before (under an earlier
+    # declaration of a refinement) and under a grammar built from classes nobody has touched must give the same program
+    try:
+        for kind_h, bad_h in _history_scenario(seed):
+            report(f"rt:C07:{kind_h}-mapping-depends-on-earlier-grammars", (0, 1, len(bad_h)), bad_h, REP_UNIT.get(kind_h, kind_h))
+        evaluations += 1
+    except Exception as ex:  # noqa
+        report("rt:C07:history-scenario-crashed", (9, 1, 1), f"history-independence scenario raised {type(ex).__name__}: {str(ex)[:120]}", "GrammaticalEvolutionRepresentation")
 
     violations = [violation(k, v[1], unit=v[2]) for k, v in sorted(found.items())]
     rule = (
